@@ -7,8 +7,18 @@ import MlsVerif.Model.Lifetime
 namespace Driver.Small
 open MlsVerif
 
+/-- kind suffix of a build token: `n` = no update path, `r<j>` = removes member `j` (with a path),
+`i` = reinit (without path) -/
+def parseKind (s : String) : Option Pending.Kind :=
+  match s.front, (s.drop 1).toString with
+  | 'n', "" => some { hasPath := false }
+  | 'i', "" => some { hasPath := false, reinit := true }
+  | 'r', j => j.toNat?.map fun j => { removes := some j }
+  | _, _ => none
+
 /-- `none` inside = `x<m>:<k>`: member m receives commit k with a wrong confirmation tag (re-signed by its author): a
-rejected message, which by C04 leaves every member as it was -/
+rejected message, which by C04 leaves every member as it was.  Build tokens: `b<m>` / `B<m>` (attached / detached) =
+empty commit with an update path; an optional suffix `:n`, `:r<j>`, `:i` gives the commit's kind (`parseKind`). -/
 def parseOp (s : String) : Option (Option Pending.Op) :=
   let body := (s.drop 1).toString
   match s.front, body.splitOn ":" with
@@ -16,8 +26,10 @@ def parseOp (s : String) : Option (Option Pending.Op) :=
   | c, parts => (parseOp' c parts).map some
 where parseOp' (c : Char) (parts : List String) : Option Pending.Op :=
   match c, parts with
-  | 'b', [m] => m.toNat?.map fun m => .build m false
-  | 'B', [m] => m.toNat?.map fun m => .build m true
+  | 'b', [m] => m.toNat?.map fun m => .build m false {}
+  | 'B', [m] => m.toNat?.map fun m => .build m true {}
+  | 'b', [m, kd] => do pure (.build (← m.toNat?) false (← parseKind kd))
+  | 'B', [m, kd] => do pure (.build (← m.toNat?) true (← parseKind kd))
   | 'c', [m] => m.toNat?.map .clear
   | 'a', [m] => m.toNat?.map .apply
   | 'D', [m, k] => do pure (.applyDet (← m.toNat?) (← k.toNat?))
@@ -59,6 +71,15 @@ def handle (ws : List String) : String :=
     match ((n.drop 2).toString).toNat?, ops.mapM parseOp with
     | some n, some ops => runObs n ops
     | _, _ => "bad-op"
+  | ["adm", epoch, jitter, sameGroup, msgEpoch, ct, wire] =>
+    -- with the wire format (`priv` / `pub`): application content only as a private message
+    match epoch.toNat?, b? sameGroup, msgEpoch.toNat?, ct? ct, (if wire = "priv" then some true else if wire = "pub" then some false else none) with
+    | some e, some sg, some me, some ct, some isCipher =>
+      let j : Option (Option Nat) := if jitter = "-" then some none else jitter.toNat?.map some
+      match j with
+      | some j => if External.checkMetadataW isCipher e j true sg me ct == .ok then "ok" else "err"
+      | none => "bad-op"
+    | _, _, _, _, _ => "bad-op"
   | ["adm", epoch, jitter, sameGroup, msgEpoch, ct] =>
     match epoch.toNat?, b? sameGroup, msgEpoch.toNat?, ct? ct with
     | some e, some sg, some me, some ct =>
